@@ -433,7 +433,14 @@ fn random_case_unchecked(rng: &mut Rng) -> Case {
     }
     // a query marker whose value is empty makes the parameter syntactically different; keep such cases for the path only
     let full_t = if query_t.is_empty() { path_t.clone() } else { format!("{path_t}?{query_t}") };
-    let full_v = if query_v.is_empty() { path_v.clone() } else { format!("{path_v}?{query_v}") };
+    let mut full_v = if query_v.is_empty() { path_v.clone() } else { format!("{path_v}?{query_v}") };
+    // a marketing parameter whose *value* looks like a marker reference: it is skipped for matching and forwarded
+    // to the target as it is (the references of the target are replaced, the forwarded text is not a target)
+    let mut forwarded = String::new();
+    if cfg.ignore_marketing_query_params && cfg.pass_marketing_query_params_to_target && !mks.is_empty() && rng.chance(1, 6) {
+        forwarded = format!("utm_campaign=@{}", mks[0].name);
+        full_v = format!("{full_v}{}{forwarded}", if full_v.contains('?') { "&" } else { "?" });
+    }
 
     // explicit variables (optional): only declared variables are substitutable then
     let use_variables = rng.chance(1, 3);
@@ -472,7 +479,8 @@ fn random_case_unchecked(rng: &mut Rng) -> Case {
         if rng.coin() {
             decl.push(("sch".to_string(), json!({"name": "sch", "type": "request_scheme"}), scheme.clone().unwrap_or_default()));
         }
-        if rng.coin() {
+        // (not together with a forwarded parameter: the path would carry "@name" text into a substituted value)
+        if forwarded.is_empty() && rng.coin() {
             decl.push(("pth".to_string(), json!({"name": "pth", "type": "request_path"}), full_v.clone()));
         }
         rng.shuffle(&mut decl);
@@ -545,7 +553,14 @@ fn random_case_unchecked(rng: &mut Rng) -> Case {
         request,
         expect: Expect {
             matches: all_accepted,
-            location: substitute(&target_t, &subst),
+            location: {
+                let base = substitute(&target_t, &subst);
+                if forwarded.is_empty() {
+                    base
+                } else {
+                    format!("{base}{}{forwarded}", if base.contains('?') { "&" } else { "?" })
+                }
+            },
             header_value: substitute(&header_t, &subst),
             body_text: substitute(&text_t, &subst),
             body_html: substitute(&html_t, &subst),
